@@ -134,6 +134,17 @@ CHECKS = {
         TRUSTED + "; bins exactly on a plane may take either value",
         "DESIGN.md 4/C08",
     ),
+    "C16": (
+        "model_checking",
+        "spec/Filter.tla gives the Butterworth gain of every FFT bin as an exact rational, the identity cases "
+        "(c <= 0, c >= sqrt(3)/2), and the output-shape law of the half-spectrum round trip; TLC checks W(0)=1, W(k)=W(-k) "
+        "and the irfftn shape lemma on every shape in [1..5]^3 x 9 cutoffs x orders 1..3 and emits the gains; the gains "
+        "of _utils.lowpass_filter(_ft), Backend.lowpass_filter(_ft), pipe.lowpass_filter and Model.pre_transform are read "
+        "off an integer image and compared bin by bin, with output shape, realness, mean and linearity.",
+        "TLA+ spec Filter.tla model-checked by TLC; emitted exact gains replayed against the four real implementations",
+        TRUSTED + "; gains compared at 2e-4 absolute",
+        "DESIGN.md 4/C16",
+    ),
 }
 
 REASON_TODO = "check not built yet in this round (planned: see DESIGN.md section 4)"
